@@ -198,6 +198,9 @@ def case_model(rng, tier, i, degen=False, force_name=None, force_mode=None, forc
         # (always in the first round of the stratified stream, i.e. in every quick run, for every model)
     if force_single and i % 2 == 0:
         D = int(rng.integers(6, 9))        # many channels: products of floored eigenvalues leave the single-precision range
+        if force_mode == 'fewframes':
+            D, N = 8, int(rng.integers(2, 4))    # at least five eigenvalues of every class covariance sit on the floor
+            K = max(K, 2)
     if name in mm.INTEGRATION:
         lead = (int(rng.integers(1, 4)),)
     else:
@@ -227,6 +230,10 @@ def case_model(rng, tier, i, degen=False, force_name=None, force_mode=None, forc
         if name == 'gcacgmm':
             opts['covariance_type'] = ['spherical', 'diagonal'][int(rng.integers(0, 2))]     # the spectral stream stays regular
         style, init = 'dirichlet', mm.make_init(rng, K, N, lead, 'dirichlet')
+    if force_single and i % 2 == 0:
+        opts.pop('eigenvalue_floor', None)       # the documented default floor (1e-10)
+        if force_mode == 'fewframes':
+            iters = 1                            # predict right after the first M-step (later M-steps assert on their own input)
     _MCOUNT[0] += 1
     single = _MCOUNT[0] % 4 == 0 and (mode in (None, 'zero', 'repeat', 'rank1', 'fewframes'))
     if force_single is not None:
